@@ -317,6 +317,26 @@ def effect_sites(em, body):
             + [('ctxwrite', c) for c in em.ctx_writes(body)])
 
 
+FAILURE_KEEPING = ('map_err', 'map', 'inspect', 'inspect_err')
+
+
+def failure_carried(body, c, depth=0):
+    """`handler(x).map_err(|e| wrap(e))`: the Result goes through a combinator that keeps a failure a failure (an Err
+    stays an Err, only its payload / the Ok payload is rewritten); what happens to the failure is decided by what consumes
+    the combinator's result"""
+    import r_errd
+    if depth > 3 or c.dest['p'] or c.dest['l'] == 0:
+        return c
+    uses = r_errd.uses_of_local(body, c.dest['l'])
+    real = [u for u in uses if u[2][0] not in ('drop',)]
+    if len(real) != 1 or real[0][2][0] != 'arg':
+        return c
+    cc, k = real[0][2][1], real[0][2][2]
+    if k != 0 or r_errd._method(cc) not in FAILURE_KEEPING or not (cc.callee or '').startswith('std::result::Result'):
+        return c
+    return failure_carried(body, cc, depth + 1)
+
+
 def rule_o4(em, only_kinds=('child', 'handler')):
     """stop at first error: after the failure of a child evaluation / handler call nothing else is
     evaluated, called or assigned"""
@@ -330,6 +350,7 @@ def rule_o4(em, only_kinds=('child', 'handler')):
                 continue
             n = cnt.get(kind, 0); cnt[kind] = n + 1
             key = 'O4|%s|%s|#%d' % (body.name, kind, n)
+            c = failure_carried(body, c)
             if c.dest['l'] == 0 and not c.dest['p'] and body.is_closure and not getattr(body, 'is_view', False):
                 # the result of a *closure* goes to whoever runs the closure (Iterator::map, fold, ..): whether a
                 # failure stops the evaluation is decided by that consumer, not visible here
